@@ -439,3 +439,66 @@ Definition l_init (cap : Z) (bg : N) : lstate :=
 
 Definition l_run (own : bool) (st : lstate) (ops : list lop) : lstate :=
   fold_left (fun st op => fst (l_step own st op)) ops st.
+
+(* ------------------------------- readers and a writer interleaved over one shared buffer *)
+(* A BufferReader holds (a shared reference to the buffer, its own cursor); a BufferWriter appends to
+   the same buffer object.  The reader does not snapshot anything: every observation (read, getView,
+   end) is a function of the buffer's CURRENT contents and the reader's cursor. *)
+Record hstate := { h_buf : list N; h_curs : list Z }.       (* the shared buffer; cursor of reader k *)
+
+Inductive hop :=
+| HWrite (mem : option (list N)) (size : Z)      (* writer.write(mem, size)                *)
+| HNew                                           (* BufferReader r_k(writer.buffer)        *)
+| HRead (k : nat) (mem : bool) (size : Z)        (* r_k.read(mem, size)                    *)
+| HView (k : nat) (count : Z)                    (* r_k.getView<uint8_t>(count)            *)
+| HEnd (k : nat).                                (* r_k.end()                              *)
+
+Inductive hout :=
+| HOk | HOob | HThrow | HBad
+| HReader (k : nat) | HBytes (bs : list N) | HViewed (off size : Z) | HEndIs (b : bool).
+
+Fixpoint set_nth (l : list Z) (k : nat) (z : Z) : list Z :=
+  match l, k with
+  | [], _ => []
+  | _ :: l', O => z :: l'
+  | x :: l', S k' => x :: set_nth l' k' z
+  end.
+
+Definition h_reader (st : hstate) (c : Z) : reader := {| r_buf := h_buf st; r_cur := c |}.
+
+Definition h_step (st : hstate) (op : hop) : hstate * hout :=
+  match op with
+  | HWrite mem size =>
+      match bw_write (h_buf st) mem size with
+      | Some b' => ({| h_buf := b'; h_curs := h_curs st |}, HOk)
+      | None => (st, HOob)
+      end
+  | HNew => ({| h_buf := h_buf st; h_curs := h_curs st ++ [0] |}, HReader (length (h_curs st)))
+  | HRead k mem size =>
+      match nth_error (h_curs st) k with
+      | Some c =>
+          match rd_read (h_reader st c) mem size with
+          | ROk bs r' => ({| h_buf := h_buf st; h_curs := set_nth (h_curs st) k (r_cur r') |}, HBytes bs)
+          | RThrow => (st, HThrow)
+          | ROob => (st, HOob)
+          end
+      | None => (st, HBad)
+      end
+  | HView k count =>
+      match nth_error (h_curs st) k with
+      | Some c =>
+          match rd_view (h_reader st c) count with
+          | ROk (off, sz) r' => ({| h_buf := h_buf st; h_curs := set_nth (h_curs st) k (r_cur r') |}, HViewed off sz)
+          | RThrow => (st, HThrow)
+          | ROob => (st, HOob)
+          end
+      | None => (st, HBad)
+      end
+  | HEnd k =>
+      match nth_error (h_curs st) k with
+      | Some c => (st, HEndIs (rd_end (h_reader st c)))
+      | None => (st, HBad)
+      end
+  end.
+
+Definition h_init : hstate := {| h_buf := []; h_curs := [] |}.
